@@ -58,6 +58,8 @@ fixed("FX-C02-05", "C02", "291bc67", "Unmarshal(\"[1e39]\", &[]float32) = nil, [
 fixed("FX-C05-02", "C05", "d42b152", "Valid(\"tru\"), Valid(\"nul\") were true and a Decoder fed byte by byte accepted txxx for true: stream literal scanners did not compare the byte delivered by a refill and took the end of input inside a literal for success (was KF-C05-06, KF-C05-07, KF-C18-V06/V07, KF-C09-R02/R03)")
 fixed("FX-C07-04", "C07", "987fef6", "unescapeString formed unsafeAdd(src, 11) beyond the input copy for a high surrogate escape near the end of a document whose copy fills its allocation size class: checkptr 'pointer arithmetic result points to invalid allocation', GC 'invalid pointer' (found by the thorough checkptr runs of C09/C02/C17 after the escape generators were repaired; C07 now enumerates allocation-edge documents in the quick tier)")
 fixed("FX-C05-03", "C05", "a71d371", "UnmarshalWithOption({\"a\":1 x}, &struct{A int}{}, DecodeFieldPriorityFirstWin()) = nil, also {\"a\":1,,,}, {\"a\":1]}, {\"a\":1 \"b\" 2}: first-win mode left through the bracket-matching skipObject once every field had been seen (noticed through seeded change C05b)")
+fixed("FX-C06-07", "C06", "e35cc2f", "Decoder.Decode of \"\\xff\\u0041\" (ill-formed UTF-8 followed by a \\u escape) fed in pieces into a string destination panicked (slice bounds out of range in decodeUnicode): the stream length was over-counted by one per replaced byte")
+fixed("FX-C09-08", "C09", "e35cc2f", "a >500-byte document with ill-formed UTF-8 in strings, cut at 510, made Decoder fail with io.ErrNoProgress (zero-length Read: no room left in a buffer that was not flagged full); Unmarshal decodes it")
 fixed("FX-C15-01", "C15", "57be1d1", "Decoder fed 5-byte chunks failed on fully \\u-escaped keys")
 
 fixed("FX-C06-04", "C06", "0243e9f", "Compact/Indent of a 100000-deep tower: fatal out of memory / stack overflow (no nesting limit)")
